@@ -2,6 +2,7 @@
 The parameters of the receiving-side stream model as regenerated from the Go source.
 -/
 import Gotlcp.Model.RecordRxStream
+import Gotlcp.Model.RecordRxHandshake
 import Gotlcp.Generated.Facts
 
 namespace Gotlcp.Model.RecordRx
@@ -19,5 +20,9 @@ def factsRx : Params where
   alertCloseNotify := Facts.tlcp.alertCloseNotify
   levelWarning := Facts.tlcp.alertLevelWarning
   levelError := Facts.tlcp.alertLevelError
+
+def factsHs : HsParams where
+  typeFinished := Facts.tlcp.typeFinished
+  maxHandshake := Facts.tlcp.maxHandshake
 
 end Gotlcp.Model.RecordRx
